@@ -259,7 +259,7 @@ pub fn run(cx: &mut Ctx) {
     cx.rule("C11.X1", "unparse_expr matches Expr exhaustively, one arm per variant, without a wildcard");
     cx.floor("C11.P0", 15);
     cx.floor("C11.P1", 20);
-    cx.floor("C11.P2", 70);
+    cx.floor("C11.P2", 60);
     cx.floor("C11.P3", 13);
     cx.floor("C11.S1", 29);
     cx.floor("C11.X1", 27);
